@@ -1852,8 +1852,10 @@ method or constructor of some type."""
                             param_matched = False
                             break
                 if param_matched:
-                    method.sync_func = candidate_method.name
-                    candidate_method.async_func = method.name
+                    # An explicit (async-func) annotation on the sync method wins
+                    if candidate_method.async_func in (None, method.name):
+                        method.sync_func = candidate_method.name
+                        candidate_method.async_func = method.name
                     break
 
     def _pass3_callable_callbacks(self, node):
